@@ -112,7 +112,18 @@ Section CfgOk.
   Definition child_indent_ok := ws_tpl (t_child_indent C).
   Definition root_indent_ok := ws_tpl (t_root_indent C).
 
+  (** Only the nameless root is written without its own header: the root test is [is None]. *)
+  Definition root_test_ok : bool := match t_root_test C with RTIsNone => true | _ => false end.
+
   Definition cfg_ok : bool :=
     head_ok true && head_ok false && tail_ok true && tail_ok false && leaf_ok true && leaf_ok false
-    && child_indent_ok && root_indent_ok.
+    && child_indent_ok && root_indent_ok && root_test_ok.
 End CfgOk.
+
+(** * Decisive sites of the parser *)
+(** The 'Illegal newline' tests reject nothing but line feeds and carriage returns. *)
+Definition brk_only_lfcr (t : brktest) : bool :=
+  match t with BTChars l => forallb (fun c => (c =? LF) || (c =? CR)) l | BTOther => false end.
+Definition key_break_ok (P : parsecfg) : bool := brk_only_lfcr (p_key_break P).
+Definition value_break_ok (P : parsecfg) : bool := brk_only_lfcr (p_value_break P).
+Definition pcfg_ok (P : parsecfg) : bool := key_break_ok P && value_break_ok P.
